@@ -253,6 +253,10 @@ EXEC_ERRORS = (E_ZDIV, E_ZMOD, E_SHIFT, E_NEGEXP, E_INDEX, E_NEGLEN)
 def judge_twin(case, mine, other):
     """literal-constant program (mine) vs hidden-constant twin (other)"""
     (st, tx), (so, to) = mine, other
+    if "not_run" in (st, so):
+        return None
+    if st in ("timeout", "crash") or so in ("timeout", "crash"):
+        return f"literal side {st}: {tx} / hidden side {so}: {to}"
     if st == "panic" or so == "panic":
         return f"panic: literal side {st}: {tx} / hidden side {so}: {to}"
     if st == "ok" and so == "ok":
@@ -268,6 +272,8 @@ def judge_twin(case, mine, other):
 def judge(case, status, text):
     """-> None if the observation agrees with the oracle, else a description"""
     exp = case.expect
+    if status == "not_run":
+        return None
     if isinstance(exp, Err):
         if status in ("exec_error", "parse_error") and text.split("|", 1)[0] == exp.msg:
             return None
@@ -867,7 +873,8 @@ TWIN_TEMPLATES = [
     ("ifset_any_constant", "c := mut 0; r := if x: any = A { c += 1; 1 } else { c += 10; 2 }; q := if y: [any] = [A, B] 1 else 2; (r, q, *c)"),
     ("ifset_mismatch_constant", "c := mut 0; r := if x: float | string = A { c += 1; 1 } else { c += 10; 2 }; (r, *c)"),
     ("whileset_wider_type_constant", "n := mut 0; while x: int | string = A { n += 1; if *n >= 3 { break } }; *n"),
-    ("float_two_constants_after_runtime", "m := mut 0.1; r := *m + 0.2 + 0.3; q := *m * 3.0 * (1.0 / 3.0); m = 1e16; (r, q, *m + 1.0 + 1.0, *m - 1.0 - 1.0)"),
+    ("float_two_constants_after_runtime", "m := mut 0.1; r := *m + FA + FB; q := *m * FB * FA; m = 1e16; (r, q, *m + FA + FA, *m - FB - FB, *m / FA / FB)"),
+    ("float_constants_before_runtime", "m := mut 0.1; (FA + FB + *m, FA * FB * *m, FA - FB - *m)"),
     ("int_two_constants_after_runtime", "m := mut A; (*m + B + C, *m - B - C, *m * B * C, (*m + B) * C)"),
     ("index", "arr := [A, B, C]; (arr[0], arr[2 - 3], arr[1] + arr[0])"),
     ("index_expr", "[A, B, C][(A - A) + 1]"),
@@ -918,14 +925,16 @@ def fam_twins(tier, seed, extra=()):
         vals += [(rnd.randint(-50, 50), rnd.randint(-50, 50), rnd.choice([1, 2, 3, 7, -3])) for _ in range(12)]
     for name, body in TWIN_TEMPLATES:
         *stmts, res = [x.strip() for x in split_top(body)]
+        fvals = [(0.2, 0.3), (1.0, 1.0), (0.1, 0.7), (1e-16, 3.0), (1e308, 1e308)]
         for vi, (a, b, c) in enumerate(vals):
+            fa, fb = fvals[vi % len(fvals)]
             def lit(v):
                 return f"({v})" if v >= 0 else f"(0 - {-v})"
-            sub = lambda t, A, B, C: re.sub(r"\b([ABC])\b", lambda m: {"A": A, "B": B, "C": C}[m.group(1)], t)
-            lit_prog = sub("; ".join(stmts + [res]), lit(a), lit(b), lit(c))
-            hid_body = sub("; ".join(stmts + ["return " + res]), "ca", "cb", "cc")
-            hid_prog = f"hidden := (ca: int, cb: int, cc: int) -> any {{ {hid_body} }}; hidden(va, vb, vc)"
-            hid = Case(f"twin/{name}/{vi}/hidden", hid_prog, None, {"va": a, "vb": b, "vc": c}, mode="std")
+            sub = lambda t, A, B, C, FA, FB: re.sub(r"\b(FA|FB|[ABC])\b", lambda m: {"A": A, "B": B, "C": C, "FA": FA, "FB": FB}[m.group(1)], t)
+            lit_prog = sub("; ".join(stmts + [res]), lit(a), lit(b), lit(c), repr(fa), repr(fb))
+            hid_body = sub("; ".join(stmts + ["return " + res]), "ca", "cb", "cc", "cfa", "cfb")
+            hid_prog = f"hidden := (ca: int, cb: int, cc: int, cfa: float, cfb: float) -> any {{ {hid_body} }}; hidden(va, vb, vc, vfa, vfb)"
+            hid = Case(f"twin/{name}/{vi}/hidden", hid_prog, None, {"va": a, "vb": b, "vc": c, "vfa": fa, "vfb": fb}, mode="std")
             # the hidden side still sees va, vb, vc as interpreter constants at the call site only
             out.append(hid)
             out.append(Case(f"twin/{name}/{vi}/literal", lit_prog, Twin(hid.id), mode="std",
